@@ -288,6 +288,9 @@ func runRender(c J) J {
 	obs["text"] = rs.src
 	res := doRender(rs, jstr(c, "entry"))
 	res.put(obs)
+	if m, ok := c["mention"].(string); ok && res.Outcome == "error" {
+		obs["msgok"] = len(res.Msg) > 0 && strings.Contains(res.Msg, m)
+	}
 	// a second program to be rendered in the same setting (C13: the hyphen-free twin)
 	if _, ok := c["prog0"]; ok {
 		c0 := cloneCase(c)
